@@ -12,6 +12,7 @@ mod c11;
 mod c12;
 mod c15;
 mod c16;
+mod c19;
 mod c20;
 
 fn main() {
@@ -33,6 +34,7 @@ fn main() {
         "c12" => c12::run(seed, count, &outdir, "c12").unwrap(),
         "c13" => c12::run(seed, count, &outdir, "c13").unwrap(),
         "c12-deep" => c12::deep_child(),
+        "c19" => c19::run(seed, count, &outdir).unwrap(),
         "c16" => c16::run(seed, count, &outdir).unwrap(),
         "c15" => c15::run(seed, count, &outdir).unwrap(),
         "c20" => c20::run(seed, count, &outdir).unwrap(),
